@@ -241,6 +241,9 @@ def parse_operand(s):
         return ('const', s[6:].strip())
     if s.startswith('no_retag '):
         return parse_operand(s[9:])
+    if re.match(r'^[<A-Za-z_]', s) and not re.match(r'^(copy|move|const)\b', s):
+        # a function item used as a value (e.g. `map_or(0, <u64 as From<u16>>::from)`)
+        return ('const', s)
     raise MirParseError('bad operand: %r' % s)
 
 
